@@ -11,7 +11,7 @@ import threading
 
 SPEC = "specs/Gjkr"
 PKG = "pkg/beacon/gjkr"
-HARNESS = ["gjkr_harness_test.go", "c01_test.go", "c02_test.go"]
+HARNESS = ["gjkr_harness_test.go", "gjkr_trace_test.go", "c01_test.go", "c02_test.go"]
 
 INITIATES = ["P%d_Initiate" % i for i in range(1, 13)]
 
@@ -211,16 +211,60 @@ def generate(ctx, prop):
 PROPERTY_LEVEL = ("agreement", "punished", "abort", "shares", "crash", "panic")
 
 
-def replay(ctx, prop, sel):
-    go = ctx.gotest(PKG, "^TestVerif_%s_Replay$" % prop, HARNESS, inputs={"behaviours.ndjson": sel},
-                    label="replay", timeout=ctx.pick(1500, 7200))
+def replay(ctx, prop, sel, traces=True):
+    tests = "Replay|Trace" if traces else "Replay"
+    go = ctx.gotest(PKG, "^TestVerif_%s_(%s)$" % (prop, tests), HARNESS, inputs={"behaviours.ndjson": sel},
+                    label="replay", timeout=ctx.pick(1500, 7200),
+                    env={"VERIF_RUNS": ctx.pick(10, 120)})
     for rep in go.reports.values():
         # violations of the property itself first, conformance differences after them
         dv = rep.get("divergences") or []
         dv.sort(key=lambda d: 0 if (d.get("key") or "").split(":")[0] in PROPERTY_LEVEL else 1)
         rep["divergences"] = dv
-    ctx.absorb(go, require_evals=max(1, len(sel) // 2))
+    if "replay" in go.reports and int(go.reports["replay"].get("evaluations", 0)) < max(1, len(sel) // 2):
+        ctx.broken("replay harness evaluated only %s of %d behaviours" % (go.reports["replay"].get("evaluations"), len(sel)))
+    ctx.absorb(go)
+    if traces:
+        validate_traces(ctx, prop, go)
     return go
+
+
+def validate_traces(ctx, prop, go):
+    """code -> spec: runs against a harness-chosen adversary must be behaviours of the
+    specification (views equal after every step) and satisfy its invariants."""
+    def one(n):
+        def f():
+            tp = ctx.trace_path(go, "trace_n%d" % n)
+            ok, tr = ctx.validate_trace(SPEC, "Trace_Gjkr", tp, cfg="Trace_Gjkr_%d" % n, label="Trace_Gjkr_%d" % n,
+                                        timeout=ctx.pick(1500, 5400))
+            return tp, ok, tr
+        return f
+    res = run_parallel(ctx, {n: one(n) for n in (3, 4, 5)})
+    for n, (tp, ok, tr) in sorted(res.items()):
+        lines = open(tp).read().splitlines()
+        nruns = sum(1 for x in lines if '"Reset"' in x)
+        if ok:
+            ctx.traces_validated += nruns
+            continue
+        if tr.violated and tr.violated != "Postcondition":
+            # an invariant of the specification is false in a state of a real run
+            ctx.violation("trace:n%d:%s" % (n, tr.violated),
+                          "a recorded run of the real GJKR states (harness-chosen adversary, n=%d) violates %s" % (n, tr.violated),
+                          {"tlc": tr.out[-3000:]})
+            continue
+        hw = ctx.longest_prefix(tr)
+        if not hw:
+            ctx.broken("trace validation n=%d failed without a high-water mark:\n%s" % (n, tr.out[-1500:]))
+        line = lines[hw - 1] if hw <= len(lines) else "?"
+        ev = {}
+        try:
+            ev = json.loads(line)
+        except Exception:
+            pass
+        ctx.violation("trace:n%d:%s:%s" % (n, ev.get("event"), ev.get("a")),
+                      "a recorded run of the real GJKR states (harness-chosen adversary, n=%d) is not a behaviour of the "
+                      "specification: rejected at line %d (%s of member %s in %s)" % (n, hw, ev.get("event"), ev.get("m"), ev.get("a")),
+                      {"rejected_event": line[:3000], "trace_tail": [x[:600] for x in lines[max(0, hw - 8):hw]]})
 
 
 def replay_one(ctx, prop):
@@ -230,6 +274,6 @@ def replay_one(ctx, prop):
     b = (((cex.get("detail") or {}).get("case")) or {}).get("behaviour")
     if not b:
         ctx.broken("replay file %s does not contain a behaviour (only the first divergences of a run store it)" % ctx.replay)
-    replay(ctx, prop, [b])
+    replay(ctx, prop, [b], traces=False)
     return ctx.finish(level="model_checking", rule="replay of one stored behaviour on the real code",
                       assumptions=["see the full check"], exhaustive=False)
